@@ -1,4 +1,5 @@
 import Cell2v.Lemmas.Space
+import Cell2v.Lemmas.SpaceSimple
 /-!
 C20 — MMO spatial index: range queries return exactly the entities within range.
 Only property statements, non-vacuity examples and the defect witness live here.
@@ -147,6 +148,10 @@ theorem absent_never_reported (g : Geo) (hg : g.Ok) (ops : List Op) (id : Nat)
 /-- the factory geometry: `Init(-30, -30, 30, 30, 5)` in quarter units (13 × 13 zones) -/
 def g0 : Geo := Geo.init (-120) (-120) 120 120 20
 
+/-- the precondition of `Init` holds at its only call site in the repository (the factory):
+13 × 13 zones, positive zone size -/
+theorem factory_geometry_ok : Geo.factory.Ok ∧ Geo.factory.w = 13 ∧ Geo.factory.h = 13 ∧ g0 = Geo.factory := by decide
+
 example : g0.Ok := init_geometry_ok _ _ _ _ _ (by decide) (by decide) (by decide)
 example : g0.w = 13 ∧ g0.h = 13 := by decide
 
@@ -175,6 +180,83 @@ example : ∃ s, (Space.init g0).run (ops0 ++ [Op.del 3] ++ [Op.mov 3 ⟨0, 0, 0
 /-- non-vacuity of `zone_fix_conservative`: a coordinate far outside the map, still inside the int64 range -/
 example : zoneNOld (4 * 10 ^ 18) (-120) 20 13 = zoneN (4 * 10 ^ 18) (-120) 20 13 :=
   zone_fix_conservative _ _ _ _ (by decide) (by decide) (by decide) (by decide)
+
+
+/-! ### the brute-force implementation `SimpleSpace` (simple.go) and the searcher -/
+
+/-- **SimpleSpace is a scan of its own contract**: after any history the model of simple.go
+(map `entities` + slice `values`, `AddEntity` of a live id MOVES it, `RemoveEntity` deletes from
+both) holds exactly the plain upsert-map of the history, in insertion order; its query is
+literally the scan of that map and reports no id twice. No hypothesis. -/
+theorem simplespace_search_exact (ops : List Op) (q : Pos) (r : Int) :
+    (Simple.run {} ops).values = Ref.runS [] ops ∧
+    (Simple.run {} ops).search q r = (Ref.runS [] ops).brute q r ∧
+    ((Simple.run {} ops).search q r).Nodup := by
+  obtain ⟨wf, hv⟩ := SWF.init.run ops
+  have hv' : (Simple.run {} ops).values = Ref.runS [] ops := hv
+  refine ⟨hv', ?_, ?_⟩
+  · rw [simple_search_eq_brute, hv']
+  · rw [simple_search_eq_brute]
+    have hn : ((Simple.run {} ops).values.map (·.1)).Nodup := wf.keys ▸ wf.nodup
+    exact hn.sublist (List.Sublist.map _ List.filter_sublist)
+
+/-- **Zoned index = SimpleSpace** (the property's "same set a brute-force scan yields", with the
+brute-force IMPLEMENTATION): after any history, for every query, `ZoneSpace` reports a permutation
+of what `SimpleSpace` reports when it is handed the same operations except the adds of ids that
+are live at that moment (`dropLiveAdds` — exactly what the correspondence harness hands it). -/
+theorem zoned_eq_simplespace (g : Geo) (hg : g.Ok) (ops : List Op) (q : Pos) (r : Int) :
+    ∃ s, (Space.init g).run ops = some s ∧
+      (s.search q r).Perm ((Simple.run {} (dropLiveAdds [] ops)).search q r) := by
+  obtain ⟨s, hs, hp, _, _⟩ := search_eq_bruteforce g hg ops q r
+  refine ⟨s, hs, ?_⟩
+  rw [(simplespace_search_exact (dropLiveAdds [] ops) q r).2.1, runS_dropLiveAdds]
+  exact hp
+
+/-- the two implementations of `ISpace` disagree on `AddEntity` of a live id (zoned: ignored,
+simple: moved): same two operations, different answers; with the live add dropped they agree. -/
+theorem add_live_id_diverges :
+    let ops := [Op.add 1 ⟨0, 0, 0⟩, Op.add 1 ⟨400, 0, 400⟩]
+    ((Space.init g0).run ops).map (fun s => s.search ⟨0, 0, 0⟩ 4) = some [1] ∧
+    (Simple.run {} ops).search ⟨0, 0, 0⟩ 4 = [] ∧
+    dropLiveAdds [] ops = [Op.add 1 ⟨0, 0, 0⟩] ∧
+    (Simple.run {} (dropLiveAdds [] ops)).search ⟨0, 0, 0⟩ 4 = [1] := by decide
+
+/-- **Searcher with a `Validate` predicate** (`Zone.SearchCircleTargets` asks `searcher.Validate`
+for every entity within the radius and collects the accepted ones): after any history, for every
+query and EVERY predicate `v`, the zoned query reports a duplicate-free permutation of the scan's
+within-range ids that `v` accepts. -/
+theorem search_with_validator (g : Geo) (hg : g.Ok) (ops : List Op) (q : Pos) (r : Int) (v : Nat → Bool) :
+    ∃ s, (Space.init g).run ops = some s ∧
+      (s.searchV q r v).Perm (((Ref.run [] ops).brute q r).filter v) ∧
+      (s.searchV q r v).Nodup := by
+  obtain ⟨s, hs, hp, hn, _⟩ := search_eq_bruteforce g hg ops q r
+  refine ⟨s, hs, ?_, ?_⟩
+  · rw [searchV_eq_filter]; exact hp.filter v
+  · rw [searchV_eq_filter]; exact hn.sublist List.filter_sublist
+
+/-- the same for `SimpleSpace.SearchCircleTargets` -/
+theorem simplespace_with_validator (ops : List Op) (q : Pos) (r : Int) (v : Nat → Bool) :
+    (Simple.run {} ops).searchV q r v = ((Ref.runS [] ops).brute q r).filter v := by
+  rw [simple_searchV_eq_filter, (simplespace_search_exact ops q r).2.1]
+
+/-- a searcher object that starts empty (`NewFindPlayers`: `tars = []`) returns exactly the query's result -/
+theorem fresh_searcher_exact (s : Space) (q : Pos) (r : Int) (v : Nat → Bool) :
+    s.searchAcc [] q r v = s.searchV q r v := List.nil_append _
+
+/-- `FindPlayers.tars` is never reset: a searcher object that is REUSED for a second query returns
+the first query's ids again — here entity 3 twice, and entity 1 although it was removed in between.
+(Callers must create a searcher per query; `search_with_validator` is about a fresh one.) -/
+theorem searcher_reuse_witness :
+    ((Space.init g0).run ops0).map (fun s =>
+      let first := s.searchAcc [] ⟨0, 0, 0⟩ 20 (fun _ => true)
+      let s' := s.del 1
+      (first, s'.searchAcc first ⟨0, 0, 0⟩ 20 (fun _ => true), s'.searchV ⟨0, 0, 0⟩ 20 (fun _ => true)))
+    = some ([3, 1, 4], [3, 1, 4, 3, 4], [3, 4]) := by decide
+
+/-- non-vacuity of `search_with_validator` / `zoned_eq_simplespace`: the owner (id 1) is rejected, 3 and 4 stay -/
+example : ((Space.init g0).run ops0).map (fun s => s.searchV ⟨0, 0, 0⟩ 20 (fun id => id != 1)) = some [3, 4] := by decide
+example : (Simple.run {} (dropLiveAdds [] ops0)).searchV ⟨0, 0, 0⟩ 20 (fun id => id != 1) = [3, 4] := by decide
+example : (Simple.run {} ops0).search ⟨0, 0, 0⟩ 20 = [3, 4, 1] := by decide
 
 /-- **D12** (repaired by the `fix:` commit): with the pre-fix zone function a query at the
 origin with radius 10²⁰ (4·10²⁰ quarter units; `(r+30)/5 ≥ 2⁶³`) converts to `MinInt64`,
